@@ -12,6 +12,24 @@ C = 'histories: BFS over operation sequences against a model of the global gener
 
 # id -> (engine, technique, level text, level note, design ref)
 CHECKS = {
+    'C04': ('smallscope', 'bounded-exhaustive enumeration of all labelled inputs x all n! renumberings (table closed under the permutation group by lookup)',
+            'About 75 deterministic measures (degrees, strengths, density, clustering, transitivity, distances, efficiency, betweenness, cores, rich '
+            'club, assortativity, PageRank, eigenvector/subgraph centrality, matching, topological overlap, edge overlap, flow, walks, components, '
+            'participation/z-score/diversity with every set partition): evaluated on every labelled 4-node input of their class and compared on ALL '
+            '(graph, renumbering) pairs: node vectors permute, pair matrices permute on both axes, scalars and distributions are unchanged.',
+            'documented order-dependent choices (Pmat/hops/B under ties) and heuristics are excluded; spectral/random-walk measures compared on connected inputs', 'DESIGN.md section 4 C04'),
+    'C13': ('smallscope', 'bounded-exhaustive enumeration over programs x inputs: every public callable x argument alphabet by parameter role x every flag value, byte snapshots',
+            'All 152 public callables of the bct namespace (discovered at run time; three IO/plot functions excluded and listed) are called on ten '
+            'connection-matrix variants (binary/weighted/signed, symmetric/asymmetric, zero/non-zero diagonal), three community-vector labellings and '
+            'every boolean/enum flag value; every array argument is byte-identical (data, dtype, shape, strides, writeable) after the call, whether it '
+            'returned or raised. Randomised routines use an integer seed.',
+            'inputs are one fixed alphabet per parameter role, not all matrices; copy=False is exempt by definition (C17 checks it)', 'DESIGN.md section 4 C13'),
+    'C14': ('smallscope', 'bounded-exhaustive enumeration of all set partitions x relabelling family x all small networks',
+            'participation_coef (3 modes), participation_coef_sign, module_degree_zscore (4 flags), diversity_coef_sign, gateway_coef_sign, '
+            'modularity_und/_dir(kci), modularity_und_sign on every 4-node network of their class x all 15 partitions x ~12 injective relabellings; '
+            'partition_distance on all 2704+225 ordered pairs of partitions (symmetry, VIn in [0,1], VI=0 and MI=1 iff equal, label invariance); '
+            'agreement/agreement_weighted on all pairs and a third of the triples; ci2ls/ls2ci round trips.',
+            'relabelling family is finite (bctmc.smallscope.relabellings); the single-block/single-block pair has undefined MI and is counted separately', 'DESIGN.md section 4 C14'),
     'C18': ('smallscope', 'bounded-exhaustive enumeration of connected graphs / all graphs n<=6 with residuals of the defining equations',
             'mean_first_passage_time (first-passage recurrence off the diagonal), diffusion_efficiency (elementwise inverse and mean), '
             'pagerank_centrality (positive, sums to one, fixed-point equation; d in {0.5,0.85}, uniform and non-uniform falff) on every connected '
@@ -116,7 +134,7 @@ CHECKS = {
 }
 
 ALL = ['C%02d' % i for i in range(1, 21)]
-NOT_YET = 'check not built yet in this round (planned, see DESIGN.md section 4); no claim is made'
+NOT_YET = 'no check built; no claim is made'
 
 
 def main():
